@@ -25,6 +25,7 @@ def epochCalQ : Handler := fun fn a =>
   | "leap_table" => some <| out GenQ.leap_table
   | "leap_seconds" => some <| out (GenQ.leap_seconds a[0]!.i a[1]!.i)
   | "get_last_leap_second" => some <| out GenQ.get_last_leap_second
+  | "get_last_leap_second_of" => some <| out (GenQ.get_last_leap_second_of a[0]!.q a[1]!.i)
   | "compute_jde_kw" => some <| out (GenQ.compute_jde_kw a[0]!.i a[1]!.i a[2]!.q a[3]!.b a[4]!.q)
   | "epoch_set_kw" => some <| out (GenQ.epoch_set_kw a[0]!.i a[1]!.i a[2]!.q a[3]!.q a[4]!.q a[5]!.q
         (optBool a[6]!) (optQ a[7]! a[8]!))
@@ -52,6 +53,7 @@ def epochCalF : Handler := fun fn a =>
   | "leap_table" => some <| out GenF.leap_table
   | "leap_seconds" => some <| out (GenF.leap_seconds a[0]!.i a[1]!.i)
   | "get_last_leap_second" => some <| out GenF.get_last_leap_second
+  | "get_last_leap_second_of" => some <| out (GenF.get_last_leap_second_of a[0]!.f a[1]!.i)
   | "compute_jde_kw" => some <| out (GenF.compute_jde_kw a[0]!.i a[1]!.i a[2]!.f a[3]!.b a[4]!.f)
   | "epoch_set_kw" => some <| out (GenF.epoch_set_kw a[0]!.i a[1]!.i a[2]!.f a[3]!.f a[4]!.f a[5]!.f
         (optBool a[6]!) (optF a[7]! a[8]!))
